@@ -160,6 +160,23 @@ def make(cfg: str, space: Space, seed: int, slot: int):
   raise ValueError(cfg)
 
 
+HISTORY_FORMS = ('list', 'generator', 'tuple', 'iterator', 'map')
+
+
+def as_form(pairs: list, form: str):
+  if form == 'list':
+    return list(pairs)
+  if form == 'tuple':
+    return tuple(pairs)
+  if form == 'generator':
+    return (p for p in pairs)
+  if form == 'iterator':
+    return iter(list(pairs))
+  if form == 'map':
+    return map(lambda p: (p[0], p[1]), pairs)
+  raise ValueError(form)
+
+
 class Run:
   """One real run of one algorithm instance (the instance is replaced at a crash)."""
 
@@ -301,6 +318,7 @@ def replay(beh: List[Tuple[list, dict]], space: Space, seed: int, mirror: bool =
   fb_order: List[int] = []
   keymap: Dict[Any, int] = {}
   crashed = stopped = diverged = False
+  forms_used: List[str] = []
   prev_spec = spec_clauses(st0['obs'])
 
   def flags(state_before: dict) -> dict:
@@ -318,6 +336,7 @@ def replay(beh: List[Tuple[list, dict]], space: Space, seed: int, mirror: bool =
              history=[a for a in res['acts']], reference='uninterrupted run' if u_on else 'specification',
              **detail)
     d['mirror'] = mirror
+    d['history_passed_as'] = list(forms_used)
     d['behaviour'] = [[a, s] for a, s in beh[:len(res['acts']) + 1]]     # for ./check C15 --replay
     res['violations'].append((sig, d))
 
@@ -406,8 +425,16 @@ def replay(beh: List[Tuple[list, dict]], space: Space, seed: int, mirror: bool =
         R = Run(cfg, space, seed)
         runs.append(R)
         objs = [pg.from_json_str(j) for j, _ in hist]
+        # recover() takes an Iterable: the persisted history is handed over in every container form the
+        # signature allows, incl. one-shot ones (a generator / a lazily decoded log can be read only once)
+        # (which one is a function of the configuration, the seed and the calls made so far)
+        salt = seed + sum(map(ord, cfg)) + sum(len(a) + (a[1] if len(a) > 1 and isinstance(a[1], int) else 0)
+                                               for a in res['acts'])
+        form = HISTORY_FORMS[salt % len(HISTORY_FORMS)]
+        forms_used.append(form)
+        res['counters']['Crash:history=' + form] += 1
         try:
-          R.alg.recover([(o, h[1]) for o, h in zip(objs, hist)])
+          R.alg.recover(as_form([(o, h[1]) for o, h in zip(objs, hist)], form))
         except Exception as e:   # pylint: disable=broad-except
           violate('recover_raises', before, dict(error=f'{type(e).__name__}: {e}'[:200]))
           diverged = True
